@@ -84,6 +84,9 @@ def _display(v) -> str:
     return "" if v is None else str(v)
 
 
+UNICODE_EDGES = ["\u00e9", "\u00b1", "\u03b1", "\u7fff", "\u8000", "\u8001", "\uffff", "\U00010000", "\U00017fff", "\U00018000", "\U0001f600", "\U0010ffff"]
+
+
 def _data_column(cls: str, n: int, c: int, dtag: str):
     if cls == "s":
         return [f"{dtag}{r}.{c}" for r in range(n)]
@@ -95,6 +98,12 @@ def _data_column(cls: str, n: int, c: int, dtag: str):
         return [r * 1000 + c for r in range(n)]
     if cls == "f":
         return [r + c / 8 + 0.0625 for r in range(n)]
+    if cls == "u":  # tag + a class-boundary code point (Latin-1, BMP edges around the signed 16-bit wrap, astral)
+        return [f"{dtag}{r}.{c} " + UNICODE_EDGES[r % len(UNICODE_EDGES)] for r in range(n)]
+    if cls == "ni":  # integer column with nulls (null must display as empty, not 'None')
+        return [None if r % 2 else r * 1000 + c for r in range(n)]
+    if cls == "nf":  # float column with nulls
+        return [r + c / 8 + 0.0625 if r % 3 else None for r in range(n)]
     if cls == "z":
         return [None] * n
     if cls == "m":
@@ -102,7 +111,7 @@ def _data_column(cls: str, n: int, c: int, dtag: str):
     raise ValueError(cls)
 
 
-_POLARS_DT = {"s": "Utf8", "p": "Utf8", "x": "Utf8", "i": "Int64", "f": "Float64", "z": "Utf8", "m": "Utf8"}
+_POLARS_DT = {"s": "Utf8", "p": "Utf8", "x": "Utf8", "ni": "Int64", "nf": "Float64", "u": "Utf8", "i": "Int64", "f": "Float64", "z": "Utf8", "m": "Utf8"}
 
 
 def table_frame(spec: dict, dtag: str = "D"):
